@@ -56,6 +56,14 @@ def _cases(shard):
                op('kill_tail', slot, st.integers(1, 3)), op('kill_head', slot, st.integers(1, 3)),
                op('idx', slot, st.integers(8, 30)), op('idx', slot, st.integers(-30, -1))]
         mut = H.op_strategy(fam, kind, ktype, 0)
+        # the container itself - or a lazy sequence / iterator over it, whole or a range - is the operand of its own
+        # bulk mutation or of a set operation: the library's internal cursors run over the container being changed
+        if is_map:
+            hows = ['update_self', 'update_items', 'ctor_items', 'union_keys', 'difference_self']   # update() documents a sequence of pairs or an object with items(): a bare iterator is not offered
+        else:
+            hows = ['update_self', 'update_keys', 'ior_keys', 'iand_keys', 'isub_keys', 'ixor_keys', 'isub_iter',
+                    'ixor_iter', 'iand_iter', 'ctor_keys', 'union_keys', 'difference_self']
+        cur += [op('selfop', st.sampled_from(hows), B, B, st.booleans(), st.booleans())] * 3
         n = len(dom)
         start = draw(st.integers(0, n - 1))
         vt = draw(F.value_tokens(fam)) if is_map else None
@@ -292,6 +300,71 @@ def run_case(case, ctx):
                                         mutate('add', k)
                                     n += 1
                             classes.append('parked_leaf_grown')
+                continue
+            if name == 'selfop':
+                _, how, mn, mx, exmin, exmax = op
+                kmn = F.dk(fam, mn) if mn is not None else None
+                kmx = F.dk(fam, mx) if mx is not None else None
+                before_c = lv.contents()
+                before_keys = [e[0] for e in before_c] if is_map else list(before_c)
+                mod = F.module(fam)
+                try:
+                    if how == 'update_self':
+                        t.update(t)
+                    elif how == 'update_items':
+                        t.update(t.items(kmn, kmx, exmin, exmax))
+                    elif how == 'update_iteritems':
+                        t.update(t.iteritems(kmn, kmx, exmin, exmax))
+                    elif how == 'update_keys':
+                        t.update(t.keys(kmn, kmx, exmin, exmax))
+                    elif how == 'ctor_items':
+                        type(t)(t.items(kmn, kmx, exmin, exmax))
+                    elif how == 'ctor_keys':
+                        type(t)(t.keys(kmn, kmx, exmin, exmax))
+                    elif how == 'union_keys':
+                        F.fn(fam, 'union', lv.impl)(t, t.keys(kmn, kmx, exmin, exmax))
+                    elif how == 'difference_self':
+                        F.fn(fam, 'difference', lv.impl)(t, t)
+                    elif how.endswith('_keys'):
+                        getattr(t, '__%s__' % how[:-5])(t.keys(kmn, kmx, exmin, exmax))
+                    else:
+                        getattr(t, '__%s__' % how[:-5])(iter(t))
+                    outcome = 'returned'
+                except (RuntimeError, IndexError) as e:
+                    outcome = type(e).__name__
+                except Exception as e:
+                    raise Violation('%s raised %s: %s' % (desc, type(e).__name__, e),
+                                    dict(sig, what='bad-exception', exc=type(e).__name__))
+                classes.append('selfop:%s:%s' % (how, outcome))
+                # the operand only ever names keys of the container: nothing can be invented; additions of what is
+                # already there change nothing; removals may stop half way (RuntimeError) or skip entries
+                now_c = lv.contents()
+                now_keys = [e[0] for e in now_c] if is_map else list(now_c)
+                if now_keys != sorted(now_keys, key=F.sortkey) or len(set(map(repr, now_keys))) != len(now_keys):
+                    raise Violation('%s (%s): keys afterwards out of order or repeated: %r' % (desc, outcome, now_keys),
+                                    dict(sig, what='selfop-order'))
+                grows = how.split('_')[0] in ('update', 'ior', 'ctor', 'union', 'difference')
+                if grows and now_c != before_c:
+                    raise Violation('%s (%s): contents changed from %r to %r' % (desc, outcome, before_c, now_c),
+                                    dict(sig, what='selfop-contents'))
+                if not grows and not all(any(k == b for b in before_keys) for k in now_keys):
+                    raise Violation('%s (%s): a key appeared that was not stored before: %r -> %r'
+                                    % (desc, outcome, before_keys, now_keys), dict(sig, what='selfop-contents'))
+                if len(t) != len(now_keys):
+                    raise Violation('%s (%s): len() %d, %d keys listed' % (desc, outcome, len(t), len(now_keys)),
+                                    dict(sig, what='selfop-len'))
+                if lv.is_tree:
+                    try:
+                        t._check()
+                        walker.walk(t, is_map)
+                    except (AssertionError, walker.WalkError) as e:
+                        raise Violation('%s (%s): the tree is not sound afterwards: %s' % (desc, outcome, e),
+                                        dict(sig, what='unsound'))
+                if now_c != before_c:
+                    mutations += 1
+                    nontrivial = True
+                # whatever subset remained is "the contents implied by the mutations" from here on
+                lv.model = dict(now_c) if is_map else dict((k, None) for k in now_c)
                 continue
             # ordinary mutation / read from the C01 alphabet
             before = len(lv.model)
